@@ -375,6 +375,9 @@ func (e *Env) RIndex() {
 					if sortCallbackIndex(info, fd, x) || lenGuardedSearchIndex(info, fd, x) {
 						return true // valid by the contract of package sort / guarded by i < len(S)
 					}
+					if mirrorIndex(info, fd, x, rangeKey) {
+						return true // out[len(S)-1-i], i the range key of S, out made with len(S)
+					}
 					if descBounded(info, fd, x) {
 						return true // a parameter that every caller sets to a range key of S, or a loop counting down from it to 0
 					}
@@ -1267,4 +1270,57 @@ func descBounded(info *types.Info, fd *ast.FuncDecl, x *ast.IndexExpr) bool {
 		return true
 	})
 	return clean
+}
+
+// mirrorIndex: O[len(S)-1-i] where i is the key of an enclosing range over S and O is a local
+// defined once as make([]T, len(S)) (and never re-sliced or reassigned): 0 <= len(S)-1-i < len(O).
+func mirrorIndex(info *types.Info, fd *ast.FuncDecl, x *ast.IndexExpr, rangeKey map[types.Object]string) bool {
+	oid, ok := ast.Unparen(x.X).(*ast.Ident)
+	if !ok {
+		return false
+	}
+	// index: len(S) - 1 - i
+	outer, ok := ast.Unparen(x.Index).(*ast.BinaryExpr)
+	if !ok || outer.Op != token.SUB {
+		return false
+	}
+	iid, ok := ast.Unparen(outer.Y).(*ast.Ident)
+	if !ok {
+		return false
+	}
+	inner, ok := ast.Unparen(outer.X).(*ast.BinaryExpr)
+	if !ok || inner.Op != token.SUB || types.ExprString(inner.Y) != "1" {
+		return false
+	}
+	lenCall, ok := ast.Unparen(inner.X).(*ast.CallExpr)
+	if !ok || types.ExprString(lenCall.Fun) != "len" || len(lenCall.Args) != 1 {
+		return false
+	}
+	S := types.ExprString(lenCall.Args[0])
+	if rangeKey[info.Uses[iid]] != S {
+		return false
+	}
+	// O := make([]T, len(S)), the only write to O
+	o := info.Uses[oid]
+	defs, good := 0, false
+	ast.Inspect(fd.Body, func(n ast.Node) bool {
+		as, ok := n.(*ast.AssignStmt)
+		if !ok {
+			return true
+		}
+		for i, l := range as.Lhs {
+			id, ok := l.(*ast.Ident)
+			if !ok || (info.Defs[id] != o && info.Uses[id] != o) {
+				continue
+			}
+			defs++
+			if len(as.Lhs) == len(as.Rhs) {
+				if mk, ok := ast.Unparen(as.Rhs[i]).(*ast.CallExpr); ok && types.ExprString(mk.Fun) == "make" && len(mk.Args) == 2 && types.ExprString(mk.Args[1]) == "len("+S+")" {
+					good = true
+				}
+			}
+		}
+		return true
+	})
+	return defs == 1 && good
 }
